@@ -60,6 +60,44 @@ def neighbours(digits):
     return [str(n + 1), str(n - 1)] if n > 1 else [str(n + 1)]
 
 
+def hard_midpoints(rng, e10s, trials, keep, nd=19):
+    """For each decimal exponent e10: nd-digit mantissas D such that D*10^e10 lies extremely close to the
+    midpoint of two adjacent doubles (found by scanning 'trials' random doubles of that decade and keeping
+    the 'keep' closest).  These are the inputs on which the low word of a power-of-ten table row matters,
+    for parsing (C04) and - through the two adjacent doubles - for shortest printing (C07).
+    Returns [(D, e10, bits_lo)] where bits_lo is the double just below the midpoint."""
+    out = []
+    for e10 in e10s:
+        lo10, hi10 = 10 ** (nd - 1), 10 ** nd
+        cands = []
+        for _ in range(trials):
+            D0 = rng.randrange(lo10, hi10)
+            try:
+                x = float(f"{D0}e{e10}")
+            except (OverflowError, ValueError):
+                continue
+            if x == 0.0 or x == float("inf"):
+                continue
+            b = d2b(x)
+            be, m = b >> 52, b & ((1 << 52) - 1)
+            if be == 0 or be >= 2046:
+                continue
+            mm, q = (1 << 52) | m, be - 1075
+            # midpoint (2mm+1) * 2^(q-1) in units of 10^e10 = num / den
+            num = (2 * mm + 1) * (1 << max(q - 1, 0)) * 10 ** max(-e10, 0)
+            den = (1 << max(1 - q, 0)) * 10 ** max(e10, 0)
+            D = (2 * num + den) // (2 * den)
+            if not (lo10 <= D < hi10):
+                continue
+            err = abs(D * den - num)                     # distance to the midpoint, in 1/den units of 10^e10
+            ulp = (1 << max(q, 0)) * 10 ** max(-e10, 0) * den // ((1 << max(-q, 0)) * 10 ** max(e10, 0)) or 1
+            cands.append((err / ulp if ulp else 0.0, D, b))
+        cands.sort()
+        for _, D, b in cands[:keep]:
+            out.append((D, e10, b))
+    return out
+
+
 def c04_inputs(rng, quick):
     out = []
     bexps = list(range(1, 2047, 97 if quick else 7)) + [1, 2, 1022, 1023, 1024, 1075, 1076, 2045, 2046]
@@ -92,6 +130,11 @@ def c04_inputs(rng, quick):
             m = rng.randrange(10 ** (nd - 1), 10 ** nd)
             out.append(f"{m}e{e10}")
             out.append(f"{str(m)[0]}.{str(m)[1:]}e{e10 + nd - 1}")
+    # near-halfway mantissas per table row (the low 64 bits of the row decide the rounding)
+    for D, e10, b in hard_midpoints(rng, range(-342, 290, 4 if quick else 1), 40 if quick else 400, 2 if quick else 6):
+        out += [f"{D}e{e10}", f"{D + 1}e{e10}", f"{D - 1}e{e10}", f"{str(D)[0]}.{str(D)[1:]}e{e10 + 18}"]
+    for D, e10, b in hard_midpoints(rng, range(-330, 290, 7 if quick else 1), 40 if quick else 300, 1 if quick else 4, nd=17):
+        out += [f"{D}e{e10}", f"{str(D)[:3]}.{str(D)[3:]}e{e10 + 14}"]
     # exact fast path edges: mantissa below 2^53 with exponent 22..37 and -22
     for m in [(1 << 52) - 1, (1 << 53) - 1, 4503599627370495, 1234567890123457, 9007199254740991, 9007199254740993]:
         for e10 in (0, 1, 15, 22, 23, 29, 30, 36, 37, 38, -1, -22, -23):
@@ -141,6 +184,12 @@ def c07_inputs(rng, quick):
                 continue
             b = d2b(x)
             bits += [b, b + 1, b - 1]
+    # doubles adjacent to a midpoint that an (almost) 17-digit decimal nearly hits: the decimal is barely inside or
+    # outside their rounding intervals, so the low word of the table entry of that decade decides
+    for D, e10, b in hard_midpoints(rng, range(-340, 292, 3 if quick else 1), 30 if quick else 300, 2 if quick else 8, nd=17):
+        bits += [b, b + 1]
+    for D, e10, b in hard_midpoints(rng, range(-340, 292, 5 if quick else 1), 30 if quick else 300, 1 if quick else 6, nd=16):
+        bits += [b, b + 1]
     for e in range(-1074, 1024, 9 if quick else 1):          # powers of two and their neighbours (irregular boundary)
         b = d2b(2.0 ** e)
         bits += [b, b + 1] + ([b - 1] if b > 1 else [])
